@@ -120,14 +120,20 @@ def negative_controls(ctx, pid, mod):
     """Behaviour-preserving refactors stored under /verif/refactors: applied to a scratch copy, the rules of the
     properties they touch must report nothing new (no false alarm on code where the property holds)."""
     metas = sorted(glob.glob(os.path.join(VERIF, "refactors", "*", "meta.json")))
-    mine = []
+    mine, fragile = [], []
     for mp in metas:
         try:
             m = json.load(open(mp))
         except Exception:
             continue
         if pid in m.get("properties", []):
+            if m.get("silent") is False:
+                if pid in (m.get("still_reported") or {}):
+                    fragile.append((os.path.basename(os.path.dirname(mp)), m))
+                continue
             mine.append((os.path.dirname(mp), m))
+    for nm, m in fragile:
+        ctx.note("negative control %s (%s): a behaviour-preserving refactor on which these rules still report %s — a known false alarm of the checker (DESIGN §7, 12n), not enforced" % (nm, m.get("what", "")[:90], (m["still_reported"].get(pid) or [])[:3]))
     if not mine:
         return
     ctx.rule("SELFTEST-NEG", "on every stored behaviour-preserving refactor that touches this property's anchors, the rules report exactly what they report on the unchanged tree")
